@@ -160,25 +160,26 @@ package fans
 //@   props C19
 //@   requires cmdWF(fan)
 //@   ensures err != nil ==> fan.Pwm == old(fan.Pwm)
-//@   modifies fan.Pwm, procWorld
+//@   modifies fan.Pwm, procWorld, started
 //@ func (*CmdFan).GetRpm
 //@   props C19
 //@   returns (result, err)
 //@   requires cmdWF(fan)
-//@   modifies fan.Rpm, procWorld
+//@   modifies fan.Rpm, procWorld, started
 //@ func (*CmdFan).SetPwm
 //@   props C19
 //@   requires cmdWF(fan)
 //@   ghostdo pwmWrites[fan] := pwmWrites[fan] + 1
 //@   ghostdo lastPwm[fan] := pwm
 //@   ensures pwmWrites == old(pwmWrites)[fan := old(pwmWrites)[fan] + 1] && lastPwm == old(lastPwm)[fan := pwm]
-//@   modifies pwmWrites, lastPwm, procWorld
+//@   modifies pwmWrites, lastPwm, procWorld, started
 //@   loop 1 "for _, arg := range conf.Args"
 //@     invariant -1 <= rangeindex && arrayOf(args) >= old(W)
 //@ func (*CmdFan).Supports
 //@   requires cmdWF(fan)
 //@   ensures feature == FeatureControlMode ==> !result
 //@   ensures feature == FeaturePwmSensor ==> result
+//@   ensures feature == FeatureRpmSensor ==> result == (fan.Config.Cmd.GetRpm != nil)
 //@   modifies nothing
 
 // ---- setters --------------------------------------------------------------------------------------
